@@ -54,6 +54,7 @@ case_strategy = st.fixed_dictionaries({
 def run(path, c, bkgval, files, nopositive=False, nonegative=False, finder=None):
     kw = dict(innerclip=c["clip"][0], outerclip=c["clip"][1], docov=c["docov"], cores=1, doislandflux=c["islandflux"],
               nopositive=nopositive, nonegative=nonegative)
+    kw.update(skyimg.cube_kw(c.get("rep")))
     if files:
         kw.update(rmsin=files[0], bkgin=files[1])
     else:
